@@ -109,6 +109,13 @@ impl<const ROUNDS: usize> State<ROUNDS> {
         self.state[12] = counter;
     }
 
+    #[cfg(cryptoxide_verif)]
+    #[inline]
+    pub(crate) fn verif_set_counter64(&mut self, counter: u64) {
+        self.state[12] = counter as u32;
+        self.state[13] = (counter >> 32) as u32;
+    }
+
     #[inline]
     pub(crate) fn increment(&mut self) {
         self.state[12] = self.state[12].wrapping_add(1);
